@@ -1,8 +1,340 @@
 package p17
 
-import "verifharness/core"
+// Headers-first tracking through the public API of a real regtest BlockChain
+// (ffldb in a temp dir): ProcessBlockHeader / ProcessBlock deliveries of one
+// block tree in arbitrary interleavings; after every delivery the result class,
+// BestHeader and BestSnapshot tips are observed.
 
-// headers-first tracking (filled in later)
-func execHeadersFirst(f []string) string { return "bad-op" }
+import (
+	"fmt"
+	"os"
+	"path/filepath"
+	"strconv"
+	"strings"
+	"time"
 
-func genHeadersFirst(g *core.Gen) {}
+	"github.com/btcsuite/btcd/blockchain"
+	"github.com/btcsuite/btcd/btcutil/v2"
+	"github.com/btcsuite/btcd/chaincfg/v2"
+	"github.com/btcsuite/btcd/chainhash/v2"
+	"github.com/btcsuite/btcd/database"
+	_ "github.com/btcsuite/btcd/database/ffldb"
+	"github.com/btcsuite/btcd/txscript/v2"
+	"github.com/btcsuite/btcd/wire/v2"
+	"verifharness/core"
+)
+
+func errClass(err error) string {
+	if re, ok := err.(blockchain.RuleError); ok {
+		switch re.ErrorCode {
+		case blockchain.ErrDuplicateBlock:
+			return "err:dup"
+		case blockchain.ErrPreviousBlockUnknown:
+			return "err:prevunknown"
+		case blockchain.ErrInvalidAncestorBlock:
+			return "err:invalidancestor"
+		case blockchain.ErrKnownInvalidBlock:
+			return "err:knowninvalid"
+		case blockchain.ErrBadCoinbaseValue:
+			return "err:badblock"
+		}
+		return "err:rule-" + re.ErrorCode.String()
+	}
+	return "err:other"
+}
+
+// buildBlocks creates one valid regtest block per tree node (node 0 = the
+// regtest genesis block); nodes listed in bad pay one satoshi too much.
+func buildBlocks(params *chaincfg.Params, parents []int, bad map[int]bool) []*btcutil.Block {
+	blocks := make([]*btcutil.Block, len(parents)+1)
+	heights := make([]int32, len(parents)+1)
+	blocks[0] = btcutil.NewBlock(params.GenesisBlock)
+	for i, p := range parents {
+		id := i + 1
+		h := heights[p] + 1
+		heights[id] = h
+		script, err := txscript.NewScriptBuilder().AddInt64(int64(h)).AddInt64(int64(id) + 1000).Script()
+		if err != nil {
+			panic(err)
+		}
+		value := blockchain.CalcBlockSubsidy(h, params)
+		if bad[id] {
+			value++
+		}
+		cb := wire.NewMsgTx(1)
+		cb.AddTxIn(&wire.TxIn{
+			PreviousOutPoint: *wire.NewOutPoint(&chainhash.Hash{}, wire.MaxPrevOutIndex),
+			SignatureScript:  script,
+			Sequence:         wire.MaxTxInSequenceNum,
+		})
+		cb.AddTxOut(&wire.TxOut{Value: value, PkScript: []byte{txscript.OP_TRUE}})
+		hdr := wire.BlockHeader{
+			Version:    0x20000000,
+			PrevBlock:  *blocks[p].Hash(),
+			MerkleRoot: cb.TxHash(),
+			Timestamp:  params.GenesisBlock.Header.Timestamp.Add(time.Duration(int64(h)*600+int64(id)) * time.Second),
+			Bits:       params.PowLimitBits,
+		}
+		target := blockchain.CompactToBig(hdr.Bits)
+		for {
+			hash := hdr.BlockHash()
+			if blockchain.HashToBig(&hash).Cmp(target) <= 0 {
+				break
+			}
+			hdr.Nonce++
+		}
+		mb := wire.NewMsgBlock(&hdr)
+		mb.AddTransaction(cb)
+		blocks[id] = btcutil.NewBlock(mb)
+	}
+	return blocks
+}
+
+func execHeadersFirst(f []string) string {
+	// f = [segs, badlist, deliveries…]
+	if len(f) < 2 {
+		return "bad-op"
+	}
+	parents, ok := parseSegs(f[0])
+	if !ok {
+		return "bad-op"
+	}
+	bad := map[int]bool{}
+	if f[1] != "-" {
+		for _, x := range strings.Split(f[1], ".") {
+			bad[atoi(x)] = true
+		}
+	}
+	params := chaincfg.RegressionNetParams
+	params.Checkpoints = nil
+	blocks := buildBlocks(&params, parents, bad)
+	ids := map[chainhash.Hash]int{}
+	for i, b := range blocks {
+		ids[*b.Hash()] = i
+	}
+	base := ""
+	if st, e := os.Stat("/dev/shm"); e == nil && st.IsDir() {
+		base = "/dev/shm" // tmpfs: ffldb's fsync per commit costs nothing there
+	}
+	dir, err := os.MkdirTemp(base, "c17hf")
+	if err != nil {
+		panic(err)
+	}
+	defer os.RemoveAll(dir)
+	db, err := database.Create("ffldb", filepath.Join(dir, "db"), params.Net)
+	if err != nil {
+		panic(err)
+	}
+	defer db.Close()
+	chain, err := blockchain.New(&blockchain.Config{
+		DB: db, ChainParams: &params, TimeSource: blockchain.NewMedianTime(),
+		UtxoCacheMaxSize: 1 << 20,
+	})
+	if err != nil {
+		panic(err)
+	}
+	idOf := func(h chainhash.Hash) string {
+		if id, ok := ids[h]; ok {
+			return strconv.Itoa(id)
+		}
+		return "?"
+	}
+	var out []string
+	for _, d := range f[2:] {
+		if len(d) < 2 {
+			return "bad-op"
+		}
+		id := atoi(d[1:])
+		if id < 1 || id >= len(blocks) {
+			return "bad-op"
+		}
+		var res string
+		switch d[0] {
+		case 'h':
+			hdr := blocks[id].MsgBlock().Header
+			main, err := chain.ProcessBlockHeader(&hdr, blockchain.BFNone, false)
+			switch {
+			case err != nil:
+				res = errClass(err)
+			case main:
+				res = "main"
+			default:
+				res = "side"
+			}
+		case 'b':
+			// a fresh btcutil.Block so that cached heights do not leak between deliveries
+			blk := btcutil.NewBlock(blocks[id].MsgBlock())
+			main, orphan, err := chain.ProcessBlock(blk, blockchain.BFNone)
+			switch {
+			case err != nil:
+				res = errClass(err)
+			case orphan:
+				res = "orphan"
+			case main:
+				res = "main"
+			default:
+				res = "side"
+			}
+		default:
+			return "bad-op"
+		}
+		bh, bhh := chain.BestHeader()
+		snap := chain.BestSnapshot()
+		valid := "0"
+		if chain.IsValidHeader(blocks[id].Hash()) {
+			valid = "1"
+		}
+		out = append(out, fmt.Sprintf("%s/%s@%d/%s@%d/%s", res, idOf(bh), bhh, idOf(snap.Hash), snap.Height, valid))
+	}
+	if len(out) == 0 {
+		return "-"
+	}
+	return strings.Join(out, "|")
+}
+
+// genHeadersFirst: random small trees, deliveries = random interleavings of the
+// headers and blocks of the tree (parents mostly before children, some out of
+// order, duplicates), a few invalid blocks delivered when they extend the tip.
+func genHeadersFirst(g *core.Gen) {
+	r := g.R
+	for i := 0; i < g.N(160, 3000); i++ {
+		t := newTree()
+		n := r.Intn(12) + 2
+		for t.n() <= n {
+			p := r.Intn(t.n())
+			if r.Bool() {
+				p = t.n() - 1 - r.Intn(min(t.n(), 2))
+			}
+			t.addSeg(p, r.Intn(3)+1)
+		}
+		mode := r.Intn(4) // 0 headers only, 1 blocks only, 2 headers then blocks, 3 mixed
+		// simulation of the block side, to decide where an invalid block may be delivered
+		data := map[int]bool{0: true}
+		failed := map[int]bool{}
+		tip := 0
+		work := func(id int) int { return t.height[id] }
+		parent := func(id int) int { return t.parents[id-1] }
+		orphans := []int{}
+		var bad []int
+		var accept func(id int)
+		accept = func(id int) {
+			p := parent(id)
+			if failed[p] {
+				return
+			}
+			data[id] = true
+			if p == tip || work(id) > work(tip) {
+				tip = id
+			}
+		}
+		deliverBlock := func(id int) {
+			if data[id] {
+				return
+			}
+			for _, o := range orphans {
+				if o == id {
+					return
+				}
+			}
+			if !data[parent(id)] {
+				orphans = append(orphans, id)
+				return
+			}
+			accept(id)
+			queue := []int{id}
+			for len(queue) > 0 {
+				q := queue[0]
+				queue = queue[1:]
+				rest := orphans[:0:0]
+				for _, o := range orphans {
+					if parent(o) == q && data[q] {
+						accept(o)
+						queue = append(queue, o)
+					} else {
+						rest = append(rest, o)
+					}
+				}
+				orphans = rest
+			}
+		}
+		var ds []string
+		order := func() []int { // mostly topological order with some disorder
+			ids := make([]int, 0, t.n()-1)
+			for id := 1; id < t.n(); id++ {
+				ids = append(ids, id)
+			}
+			for k := r.Intn(3); k > 0 && len(ids) > 1; k-- {
+				a, b := r.Intn(len(ids)), r.Intn(len(ids))
+				ids[a], ids[b] = ids[b], ids[a]
+			}
+			if r.Chance(1, 5) {
+				for i := len(ids) - 1; i > 0; i-- {
+					j := r.Intn(i + 1)
+					ids[i], ids[j] = ids[j], ids[i]
+				}
+			}
+			return ids
+		}
+		block := func(id int) {
+			// an invalid version of this block may be delivered when it would extend the tip
+			// (in every other position the light block model does not cover the outcome)
+			if id != 0 && !data[id] && data[parent(id)] && parent(id) == tip && len(orphans) == 0 && r.Chance(1, 6) {
+				bad = append(bad, id)
+				failed[id] = true
+				data[id] = true
+				ds = append(ds, fmt.Sprintf("b%d", id))
+				return
+			}
+			deliverBlock(id)
+			ds = append(ds, fmt.Sprintf("b%d", id))
+		}
+		switch mode {
+		case 0:
+			for _, id := range order() {
+				ds = append(ds, fmt.Sprintf("h%d", id))
+			}
+			for k := r.Intn(4); k > 0; k-- {
+				ds = append(ds, fmt.Sprintf("h%d", 1+r.Intn(t.n()-1)))
+			}
+		case 1:
+			for _, id := range order() {
+				block(id)
+			}
+			for k := r.Intn(3); k > 0; k-- {
+				block(1 + r.Intn(t.n()-1))
+			}
+		case 2:
+			for _, id := range order() {
+				ds = append(ds, fmt.Sprintf("h%d", id))
+			}
+			for _, id := range order() {
+				block(id)
+			}
+		case 3:
+			hs, bs := order(), order()
+			for len(hs) > 0 || len(bs) > 0 {
+				if len(bs) == 0 || (len(hs) > 0 && r.Bool()) {
+					ds = append(ds, fmt.Sprintf("h%d", hs[0]))
+					hs = hs[1:]
+				} else {
+					block(bs[0])
+					bs = bs[1:]
+				}
+				if r.Chance(1, 8) {
+					id := 1 + r.Intn(t.n()-1)
+					if r.Bool() {
+						ds = append(ds, fmt.Sprintf("h%d", id))
+					} else {
+						block(id)
+					}
+				}
+			}
+			// headers of everything again at the end: descendants of invalid blocks are refused
+			for _, id := range order() {
+				ds = append(ds, fmt.Sprintf("h%d", id))
+			}
+		}
+		class := []string{"hf-headers-only", "hf-blocks-only", "hf-headers-then-blocks", "hf-mixed"}[mode]
+		g.Case(class, len(ds) > 3, fmt.Sprintf("C17 hf %s %s %s", t, joinInts(bad), strings.Join(ds, " ")))
+	}
+}
